@@ -43,7 +43,7 @@ def r_resolver(root):
                 w.asked.append(crossref[".obj_name"])
                 if crossref[".obj_name"] in w.failing:
                     r_ = pyeval.Raised("TextXSemanticError"); r_.bases = ["TextXSemanticError", "TextXError", "Exception"]; r_.value = w.failing[crossref[".obj_name"]]; raise r_
-                if w.schedule.get(crossref[".obj_name"], 0) > w.round: return HS({".__class__": POST, ".kind": "postponed"})
+                if w.schedule.get(crossref[".obj_name"], 0) > w.round: return HS({".__class__": POST, ".kind": "postponed", ".__complete__": "all"})       # a Postponed object has no attributes at all
                 return w.targets.get(crossref[".obj_name"])
             w.provider = pyeval.PyFn(provider)
             def mkerr(cls_):
@@ -155,12 +155,15 @@ def r_resolver(root):
         b_obj = HS({".kind": "builtin", ".conforms_to": cls, ".__complete__": "all"})
         w = World(tools=tools, builtins={"b": b_obj})
         o = w.obj(one=None, two=None, refs=[]); tg = w.target("t", cls, start=200); own_u = w.target("u", cls, start=400); tg2 = w.target("u", cls, start=300, model=w.other_model)     # a same-named object of this model exists too; the provider answers the imported one
-        w.parser["._crossrefs"] = [(o, w.attr("one", False), w.ref("t", 7, cls)), (o, w.attr("two", False), w.ref("b", 17, cls)), (o, w.attr("refs", True), w.ref("u", 27, cls))]
+        o[".late"] = None; w.target("late", cls, start=500); w.schedule["late"] = 1          # postponed in the first round, resolved in the second
+        w.parser["._crossrefs"] = [(o, w.attr("one", False), w.ref("t", 7, cls)), (o, w.attr("late", False), w.ref("late", 12, cls)), (o, w.attr("two", False), w.ref("b", 17, cls)), (o, w.attr("refs", True), w.ref("u", 27, cls))]
         k, v = w.step()
-        recs = [(r.get(".name"), r.get(".ref_pos_start"), r.get(".ref_pos_end"), r.get(".def_file_name"), r.get(".def_pos_start"), r.get(".def_pos_end")) for r in w.pos_list]
-        want = [("t", 7, 8, "model.file", 200, 205), ("u", 27, 28, "other.file", 300, 305)] if tools else []
-        ok = k == "ret" and sorted(recs) == sorted(want) and o[".one"] is tg and o[".two"] is b_obj and o[".refs"] == [tg2]
-        rep("C34", "C34.h", "tool support %s: bookkeeping of resolved references" % ("on" if tools else "off"), ok, "with textx_tools_support %s, a reference to a model object at 7, one to a builtin at 17 and a list reference at 27 into another file: the round %s and records %s; documented: %s, all three references resolved" % ("on" if tools else "off", "completes" if k == "ret" else "raises %s" % v.cls, recs, want), witness="textx_tools_support=True with builtins that are plain Python objects")
+        recs1 = [r.get(".name") if isinstance(r, dict) else repr(r)[:30] for r in w.pos_list]
+        if k == "ret": k, v = w.step()
+        recs = [(r.get(".name"), r.get(".ref_pos_start"), r.get(".ref_pos_end"), r.get(".def_file_name"), r.get(".def_pos_start"), r.get(".def_pos_end")) if isinstance(r, dict) else (repr(r)[:30],) for r in w.pos_list]
+        want = [("t", 7, 8, "model.file", 200, 205), ("u", 27, 28, "other.file", 300, 305), ("late", 12, 16, "model.file", 500, 505)] if tools else []
+        ok = k == "ret" and sorted(recs) == sorted(want) and "late" not in recs1 and o[".one"] is tg and o[".two"] is b_obj and o[".refs"] == [tg2] and o[".late"] is w.targets["late"]
+        rep("C34", "C34.h", "tool support %s: bookkeeping of resolved references" % ("on" if tools else "off"), ok, "with textx_tools_support %s, a reference to a model object at 7, one postponed in the first round at 12, one to a builtin at 17 and a list reference at 27 into another file: the rounds %s and record %s (after the first round: %s); documented: %s (a postponed reference is recorded only once it is resolved, a builtin not at all), all four references resolved" % ("on" if tools else "off", "complete" if k == "ret" else "raise %s" % v.cls, recs, recs1, want), witness="textx_tools_support=True with builtins that are plain Python objects")
     # ------------------------------------------------------------------ C33.d : an error raised by the scope provider
     for what, given, want in (("without any location", (None, None, None), (("line", 30), ("col", 30), "model.file")), ("located in a nested model loaded from a string (no file name)", (3, 4, None), (3, 4, None)),
                               ("located by file only", (None, None, "inner.file"), (None, None, "inner.file")), ("fully located", (3, 4, "inner.file"), (3, 4, "inner.file"))):
